@@ -355,16 +355,21 @@ static std::string generic_class(const Shadow& SA, int n, const WP& wp, const Ve
   return base;
 }
 // grids: which wrapped variable's value is missing from the result, and what its value set was in the argument
-static std::string grid_class(const Shadow& SA, const Shadow& SR, int n, const WP& wp, const Vec& q) {
+static std::string grid_class(const Shadow& SA, const Shadow& SR, int n, const WP& wp, const Vec& p, const Vec& q) {
   if (SR.d.empty()) return "result-empty";
   ref::Lattice LA = ref::from_congruences(n, SA.d[0].cgs), LR = ref::from_congruences(n, SR.d[0].cgs);
   std::set<std::string> kinds;
+  // culprits: wrapped variables whose required value is absent from the result's value set; failing that, the moved ones
+  std::vector<bool> culprit(n, false); bool any = false;
+  for (size_t i = 0; i < wp.vlist.size(); ++i) { int v = wp.vlist[i]; Vec e(n); e[v] = 1; if (!ref::vs_contains(ref::values(LR, e, Q(0)), q[v])) { culprit[v] = true; any = true; } }
+  if (!any) for (size_t i = 0; i < wp.vlist.size(); ++i) { int v = wp.vlist[i]; if (p[v] != q[v]) { culprit[v] = true; any = true; } }
+  if (!any) for (size_t i = 0; i < wp.vlist.size(); ++i) culprit[wp.vlist[i]] = true;
   for (size_t i = 0; i < wp.vlist.size(); ++i) {
     int v = wp.vlist[i]; Vec e(n); e[v] = 1;
-    if (ref::vs_contains(ref::values(LR, e, Q(0)), q[v])) continue;
+    if (!culprit[v]) continue;
     ref::ValSet va = ref::values(LA, e, Q(0));
     std::string k;
-    if (va.kind == ref::ValSet::CONST) k = std::string("const-var-") + (wp.sgn ? "signed" : "unsigned");
+    if (va.kind == ref::ValSet::CONST) k = "const-var";
     else if (va.kind == ref::ValSet::ALL) k = ref::line_member(LA, e) ? "free-var" : "var-on-oblique-line";
     else {
       Q M(wp.M);
@@ -373,8 +378,7 @@ static std::string grid_class(const Shadow& SA, const Shadow& SR, int n, const W
     }
     kinds.insert(k);
   }
-  if (kinds.empty()) return "joint";
-  std::string r; for (std::set<std::string>::iterator i = kinds.begin(); i != kinds.end(); ++i) r += (r.empty() ? "" : "+") + *i;
+  std::string r = wp.sgn ? "signed" : "unsigned"; for (std::set<std::string>::iterator i = kinds.begin(); i != kinds.end(); ++i) r += "+" + *i;
   return r;
 }
 
@@ -495,7 +499,7 @@ static void case_wrap(const Entry& E, IDom& X) {
       ++images;
       if (!SR.member(q)) {
         std::ostringstream o; o << "argument point " << pplx::show(p) << " requires image " << pplx::show(q) << " which is not in the result; argument=" << show_shadow(SA) << " result=" << show_shadow(SR);
-        std::string cls = E.family == F_GRID ? grid_class(SA, SR, n, wp, q) : generic_class(SA, n, wp, p, moved);
+        std::string cls = E.family == F_GRID ? grid_class(SA, SR, n, wp, p, q) : generic_class(SA, n, wp, p, moved);
         report_lost(X, "C17.wrap." + inst() + "." + mode + ".lost_point:" + cls, q, o.str());
         return;
       }
